@@ -44,6 +44,7 @@ func genAffinityPlan(seed uint64, tier string) *Plan {
 	nconn := g.rng(2, 8)
 	clientIP := "10.1.0.1"
 	sameSentBy := g.chance(50)
+	prevBranch, prevConn, prevMethod := "", "", ""
 	for ci := 0; ci < nconn; ci++ {
 		ntx := g.rng(1, 4)
 		if g.chance(15) {
@@ -67,8 +68,34 @@ func genAffinityPlan(seed uint64, tier string) *Plan {
 			} else if g.chance(30) {
 				op.S["sentby"] = fmt.Sprintf("client%d.hosts.test:5060", ci)
 			}
+			if prevBranch != "" && prevConn != op.Conn && g.chance(25) {
+				// two open transactions whose branches differ in letter case only (tokens are compared as written)
+				op.S["branch"] = "z9hG4bK" + strings.ToUpper(prevBranch[7:])
+				op.S["method"] = prevMethod
+				prevBranch = ""
+			} else if g.chance(20) {
+				op.S["branch"] = "z9hG4bK" + strings.ToLower(g.alnumL(6, 10))
+				prevBranch, prevConn, prevMethod = op.S["branch"], op.Conn, op.S["method"]
+			}
 			p.Ops = append(p.Ops, op)
 		}
+	}
+	if g.chance(12) {
+		// a transaction that is ringing while its connection turns an hour old
+		id := g.nextID()
+		op := Op{Kind: "tx", ID: id, Conn: "k0", SrcIP: clientIP, DelayUs: int64(g.rng(3530, 3598)) * 1000000,
+			S: map[string]string{"method": "INVITE", "prov": "180"},
+			I: map[string]int{"final": 200, "d1": 500, "d2": 61000000 + g.intn(120000000), "rport": g.intn(3)}}
+		if sameSentBy {
+			op.S["sentby"] = "10.1.0.1:5060"
+		}
+		p.Ops = append(p.Ops, op)
+		p.Variant = "hour-old-connection"
+	}
+	if nconn > 2 && g.chance(15) {
+		// one client hangs up while its transactions are open, and nobody listens where its Via points: its answers
+		// cannot be delivered - everybody else's must not notice
+		p.Ops = append(p.Ops, Op{Kind: "hangup", ID: g.nextID(), Conn: fmt.Sprintf("k%d", g.intn(nconn)), DelayUs: int64(30000 + g.intn(4000))})
 	}
 	return p
 }
@@ -106,8 +133,19 @@ func execAffinity(t *testing.T, p *Plan) *Result {
 			return out
 		}
 		l := p.Cfg.Listens[0]
+		hungUp := map[string]bool{}
 		for i := range p.Ops {
 			op := &p.Ops[i]
+			if op.Kind == "hangup" {
+				hungUp[op.Conn] = true
+				w.K.After(time.Duration(op.DelayUs)*time.Microsecond, "hangup", func() {
+					if c := w.conns[op.Conn]; c != nil && !c.Closed() {
+						c.Close()
+						w.stat("probe:client-hung-up-with-open-transactions")
+					}
+				})
+				continue
+			}
 			if op.Kind != "tx" {
 				continue
 			}
@@ -123,6 +161,9 @@ func execAffinity(t *testing.T, p *Plan) *Result {
 					sentby = c.Local.String()
 				}
 				params := ";branch=z9hG4bK" + strings.ReplaceAll(op.ID, "-", "")
+				if b := op.S["branch"]; b != "" {
+					params = ";branch=" + b
+				}
 				switch op.I["rport"] {
 				case 1:
 					params += ";rport"
@@ -139,7 +180,11 @@ func execAffinity(t *testing.T, p *Plan) *Result {
 				c.Write(b.Bytes())
 			})
 		}
-		w.K.Settle(10 * time.Minute)
+		if p.Variant == "hour-old-connection" {
+			w.K.Settle(2 * time.Hour)
+		} else {
+			w.K.Settle(10 * time.Minute)
+		}
 		if w.dead() {
 			return
 		}
@@ -157,6 +202,13 @@ func execAffinity(t *testing.T, p *Plan) *Result {
 			reqID := e.ID[:i]
 			op := byID[reqID]
 			if op == nil {
+				continue
+			}
+			if hungUp[op.Conn] {
+				w.stat("dontcare:answer-for-a-client-that-hung-up")
+				if e.M.Status >= 200 {
+					finalSeen[reqID] = true
+				}
 				continue
 			}
 			final := e.M.Status >= 200
@@ -179,6 +231,9 @@ func execAffinity(t *testing.T, p *Plan) *Result {
 			if len(d.reached[id]) == 0 {
 				continue
 			}
+			if hungUp[op.Conn] {
+				continue
+			}
 			w.Stats["judged:C12"]++
 			if !finalSeen[id] {
 				w.Viol = append(w.Viol, Violation{Prop: "C12", Rule: "final-answer-not-relayed", Msg: id, Sig: "",
@@ -186,6 +241,9 @@ func execAffinity(t *testing.T, p *Plan) *Result {
 			}
 		}
 		for _, ev := range w.N.Events {
+			if len(hungUp) > 0 {
+				break // answers for the client that hung up are dialled towards its Via address, rightly
+			}
 			if ev.Kind == "tcp-connect" && strings.HasPrefix(ev.B, "10.1.0.1:") || ev.Kind == "tcp-refused" && strings.HasPrefix(ev.B, "10.1.0.1:") {
 				w.Viol = append(w.Viol, Violation{Prop: "C12", Rule: "dial-towards-client", Msg: "", Sig: "",
 					Detail: fmt.Sprintf("the proxy dialled %s (%s) although every client connection is open", ev.B, ev.Kind)})
